@@ -358,7 +358,7 @@ func C17(c *core.Ctx) {
 			res[s].trace = trace
 			res[s].wr = c.RunWorker(10*time.Minute, "c17", trace, c.Tier, strconv.FormatInt(c.Seed, 10), strconv.Itoa(s), strconv.Itoa(nshards))
 
-			if res[s].wr.Panic != "" {
+			if res[s].wr.Panic != "" && res[s].wr.Site != "unknown" {
 				// the code under test died: append the observation; no action of the trace spec consumes it
 				f, _ := os.OpenFile(trace, os.O_APPEND|os.O_WRONLY|os.O_CREATE, 0o644)
 				fmt.Fprintf(f, "{\"op\":\"died\",\"site\":%q,\"panic\":%q}\n", res[s].wr.Site, res[s].wr.Panic)
